@@ -238,6 +238,25 @@ def sc_l2(cfg):
 
             return f
 
+        # "the same parameters": what the constructor is given is what KMeans.fit finds on the object
+        # (symbolic values: any k, n_init, max_iter, tol, seed)
+        given = dict(n_clusters=C.int("p_k", 1, 9), n_init=C.int("p_n_init", 1, 9), max_iter=C.int("p_max_iter", 1, 500), tol=C.real("p_tol"), random_state=C.int("p_seed", 0, 99), init="random", verbose=0, copy_x=True, algorithm="lloyd")
+        est2 = km.KMeansL1L2(norm="L2", **given)
+        seen_params = {}
+
+        def rec_params(self, *a, **k):
+            seen_params.update({key: getattr(self, key, None) for key in given})
+            return self
+
+        with harness.patched(km.KMeans, fit=rec_params):
+            est2.fit(X)
+        got = est2.get_params()
+        for key, val in given.items():
+            if isinstance(val, (str, bool)):
+                C.true(seen_params.get(key) == val and got.get(key) == val, "L2-KMeans-runs-with-the-constructor's-parameters", detail=key)
+            else:
+                C.eq(seen_params.get(key), val, "L2-KMeans-runs-with-the-constructor's-parameters", detail=key)
+                C.eq(got.get(key), val, "get_params-reports-the-constructor's-parameters", detail=key)
         with harness.patched(km.KMeans, fit=rec("fit"), predict=rec("predict"), transform=rec("transform")):
             r = est.fit(X, None, w)
             C.true(r is est, "fit-returns-self")
@@ -264,8 +283,9 @@ def sc_l2(cfg):
 
         rng = numpy.random.RandomState(5)
         Xr = rng.randn(30, 2)
-        a = km.KMeansL1L2(n_clusters=3, norm="L2", n_init=2, random_state=4).fit(Xr)
-        b = KMeans(n_clusters=3, n_init=2, random_state=4).fit(Xr)
+        tol_r = 0.05  # a non-default tolerance: Lloyd stops earlier than with 1e-4
+        a = km.KMeansL1L2(n_clusters=3, norm="L2", n_init=2, random_state=4, tol=tol_r).fit(Xr)
+        b = KMeans(n_clusters=3, n_init=2, random_state=4, tol=tol_r).fit(Xr)
         C.true(numpy.array_equal(a.labels_, b.labels_) and numpy.array_equal(a.cluster_centers_, b.cluster_centers_) and bool(numpy.isclose(a.inertia_, b.inertia_, rtol=1e-12)) and numpy.array_equal(a.predict(Xr), b.predict(Xr)) and numpy.array_equal(a.transform(Xr), b.transform(Xr)), "L2-identical-to-KMeans-on-real-data")
 
     return scenario
